@@ -60,7 +60,8 @@ CONSTANTS
   AllowReads,        \* BOOLEAN: locking reads (SELECT .. FOR UPDATE inside a global transaction) take part
   OblHonest,         \* C01/C15: 'rollbacked' is answered only when the rows are restored and the undo log is gone
   AllowXA,           \* BOOLEAN: XA branches take part
-  OblXATruthful      \* C17: a phase one that failed (branch rolled back in the database) surfaces as an error
+  OblXATruthful,     \* C17: a phase one that failed (branch rolled back in the database) surfaces as an error
+  OblXAPhaseOrder    \* C17: phase two leaves a branch alone whose phase one is still running (it answers "retry later")
 
 NoG == 0
 Foreign == -1   \* content written by somebody outside any global transaction
@@ -124,6 +125,8 @@ Business(g, o) ==
   /\ gst[g] \in {"begun", "rollbacking", "rollbacked"}   \* the TM does not know about a timeout rollback
   /\ outcome[g] = "none" /\ o \in {"nil", "err"}
   /\ p1err[g] => o = "err"                               \* an honest business callback does not hide a failed statement
+  \* the callback cannot end while one of its statements is still inside phase one of an XA branch
+  /\ \A i \in 1..Len(branches[g]) : branches[g][i].kind = "XA" => xa[<<g, i>>] # "none"
   /\ outcome' = [outcome EXCEPT ![g] = o]
   /\ UNCHANGED <<gst, branches, lock, val, undo, before, fence, eff, sent, net, dups, nforeign>>
 
@@ -307,23 +310,39 @@ Close(g) ==
 (* XA (C17): phase one = XA START .. DML .. XA END, XA PREPARE inside the statement (autocommit use) or at   *)
 (* tx.Commit; phase two = XA COMMIT / XA ROLLBACK of exactly that branch, idempotent under redelivery         *)
 
-\* ok = FALSE: XA END / XA PREPARE (or a statement) failed; the client rolls the branch back in the database
-XABranch(g, ok) ==
+\* Phase one of an XA branch is not one step: the branch is registered with the coordinator first (XAOpen), and
+\* only then do XA START, the statement, XA END and XA PREPARE run on the connection (XAClose).  In between the
+\* coordinator may time the global transaction out and send the branch's rollback (the defect repaired in 85aae88,
+\* seeded change C17-5): the client must not carry it out on the connection the application is still using.
+XAOpen(g) ==
   /\ AllowXA /\ gst[g] = "begun" /\ outcome[g] = "none"
   /\ Len(branches[g]) < MaxBranches
-  /\ LET i == Len(branches[g]) + 1 IN
-     /\ branches' = [branches EXCEPT ![g] = Append(@, [kind |-> "XA", rows |-> {}, act |-> "",
-                                                        st |-> IF ok \/ ~OblXATruthful THEN "p1done" ELSE "rollbacked"])]
-     /\ xa' = [xa EXCEPT ![<<g, i>>] = IF ok THEN "prepared" ELSE "rolledback"]
-     \* C17: the failure reaches the caller (and is reported to the coordinator); without the obligation it is swallowed
-     /\ p1err' = [p1err EXCEPT ![g] = @ \/ (~ok /\ OblXATruthful)]
+  /\ branches' = [branches EXCEPT ![g] = Append(@, [kind |-> "XA", rows |-> {}, act |-> "", st |-> "p1run"])]
+  /\ UNCHANGED <<gst, lock, val, undo, before, fence, eff, outcome, sent, net, dups, nforeign, xa, p1err, dirtyRead>>
+
+\* ok = FALSE: XA END / XA PREPARE (or a statement) failed; the client rolls the branch back in the database.
+\* The application runs on whatever the coordinator has decided meanwhile; a client without the phase-order
+\* obligation may already have answered 'rollbacked' for this branch (the coordinator then never asks again).
+XAClose(g, i, ok) ==
+  /\ AllowXA /\ i \in 1..Len(branches[g]) /\ branches[g][i].kind = "XA"
+  /\ outcome[g] = "none" /\ xa[<<g, i>>] = "none"
+  /\ branches[g][i].st = "p1run" \/ (~OblXAPhaseOrder /\ branches[g][i].st = "rollbacked")
+  /\ xa' = [xa EXCEPT ![<<g, i>>] = IF ok THEN "prepared" ELSE "rolledback"]
+  /\ branches' = IF branches[g][i].st = "p1run"
+                 THEN SetBranch(g, i, IF ok \/ ~OblXATruthful THEN "p1done" ELSE "rollbacked")
+                 ELSE branches
+  \* C17: the failure reaches the caller (and is reported to the coordinator); without the obligation it is swallowed
+  /\ p1err' = [p1err EXCEPT ![g] = @ \/ (~ok /\ OblXATruthful)]
   /\ UNCHANGED <<gst, lock, val, undo, before, fence, eff, outcome, sent, net, dups, nforeign, dirtyRead>>
 
 XAPhaseTwo(m) ==
   /\ m \in net /\ branches[m.g][m.i].kind = "XA"
   /\ LET s == <<m.g, m.i>> IN
      /\ net' = net \ {m}
-     /\ IF m.kind = "commit"
+     /\ IF OblXAPhaseOrder /\ branches[m.g][m.i].st = "p1run"
+        THEN UNCHANGED <<xa, branches>>      \* "retry later": the coordinator issues the request again
+        ELSE
+        IF m.kind = "commit"
         THEN CASE xa[s] = "prepared"  -> xa' = [xa EXCEPT ![s] = "committed"] /\ branches' = SetBranch(m.g, m.i, "committed")
                [] xa[s] = "committed" -> UNCHANGED xa /\ branches' = SetBranch(m.g, m.i, "committed")     \* redelivery
                [] OTHER               -> UNCHANGED <<xa, branches>>     \* XAER_NOTA: no truthful 'committed' is possible
@@ -354,7 +373,8 @@ Next ==
         \/ \E g \in G, i \in BIdx : Try(g, i) \/ Issue(g, i)
         \/ \E r \in Rows : ForeignWrite(r)
         \/ \E m \in net : Duplicate(m) \/ Lose(m) \/ ATCommit(m) \/ ATRollback(m) \/ ATRollbackLie(m) \/ TCCPhaseTwo(m)
-  \/ \E g \in G, ok \in BOOLEAN : XABranch(g, ok)
+  \/ \E g \in G : XAOpen(g)
+  \/ \E g \in G, i \in BIdx, ok \in BOOLEAN : XAClose(g, i, ok)
   \/ \E g \in G, rows \in SUBSET Rows : LockingRead(g, rows)
   \/ \E m \in net : XAPhaseTwo(m)
 
